@@ -163,14 +163,15 @@ Qed.
 
 (* ---- the ticker branch never fails, and only moves value from the reward pool to the zero address *)
 Lemma symbol_branch_ok s t : fst (symbol_branch s t) = cOK.
-Proof. unfold symbol_branch. destruct (t_data t); try reflexivity. destruct (0 <? _); reflexivity. Qed.
+Proof. unfold symbol_branch. destruct (t_data t); try reflexivity. destruct (base_of _ _) as [sp|c]; [destruct (0 <? sp)|]; reflexivity. Qed.
 
 Lemma symbol_branch_effs s t :
   exists sp, 0 <= sp /\ (snd (symbol_branch s t) = [] /\ sp = 0 \/ snd (symbol_branch s t) = [ERpool (- sp); EBal zero_address 0 sp]).
 Proof.
   unfold symbol_branch. destruct (t_data t); try (exists 0; split; [lia|left; split; reflexivity]).
-  destruct (Z.ltb_spec 0 (t_gas_price t * ticker_price (s_prices s) symlen)).
-  - eexists; split; [|right; reflexivity]. lia.
+  destruct (base_of _ _) as [sp|c]; [|exists 0; split; [lia|left; split; reflexivity]].
+  destruct (Z.ltb_spec 0 sp).
+  - exists sp; split; [lia|right; reflexivity].
   - exists 0; split; [lia|left; split; reflexivity].
 Qed.
 
@@ -185,6 +186,7 @@ Lemma failed_branch_shape s t code c effs :
             ERpool (Z.min (get_bal (s_bal s) payer (t_gas_coin t)) com)].
 Proof.
   unfold failed_branch.
+  destruct (failed_price_r (s_prices s) t) as [fp|c0]; [|intros H; injection H as _ <-; left; reflexivity].
   destruct (calc_commission _ _) as [com|] eqn:EC; [|intros H; injection H as _ <-; left; reflexivity].
   destruct (payer_of t) as [payer|c0] eqn:EP; [|intros H; injection H as _ <-; left; reflexivity].
   destruct (Z.ltb_spec 0 (get_bal (s_bal s) payer (t_gas_coin t))) as [Hb|Hb];
@@ -193,4 +195,22 @@ Proof.
   destruct (Z.ltb_spec (get_bal (s_bal s) payer (t_gas_coin t)) com) as [Hlt|Hge].
   - rewrite Z.min_l by lia. reflexivity.
   - rewrite Z.min_r by lia. reflexivity.
+Qed.
+
+(* the error codes of the price conversion are failure codes *)
+Lemma conv_code p x c : conv p x = inr c -> c <> 0.
+Proof.
+  unfold conv. destruct (Orders.bfs_loop_x _ _ _ _) as [[o fs]| |]; [destruct (o <? 1)| |]; intros H; try discriminate; injection H as <-; discriminate.
+Qed.
+
+Lemma failed_price_r_code p t c : failed_price_r p t = inr c -> c <> 0.
+Proof.
+  unfold failed_price_r. destruct (p_pcoin p =? 0); [discriminate|].
+  destruct (conv p (failed_table p t)) as [v|c0] eqn:E; [destruct (0 <? v); [discriminate|intros H; injection H as <-; discriminate]|].
+  intros H; injection H as <-. exact (conv_code _ _ _ E).
+Qed.
+
+Lemma tx_price_r_code p t c : tx_price_r p t = inr c -> c <> 0.
+Proof.
+  unfold tx_price_r, base_of. destruct (table_price p t =? 0); [discriminate|]. destruct (p_pcoin p =? 0); [discriminate|]. apply conv_code.
 Qed.
